@@ -12,7 +12,7 @@ func init() { props["C06"] = propC06; props["C17"] = propC17 }
 
 // replayGuarded: call x is dominated by the `isReplay == false` edge of IsReplayTransaction(tx, batch.Entry.Hash).
 func replayGuarded(c *Ctx, f *ssa.Function, x ssa.CallInstruction) (bool, string) {
-	for _, rc := range findCalls(f, "pegnet.(*Pegnet).IsReplayTransaction") {
+	for _, rc := range findCalls(f, "pegnet.Pegnet.IsReplayTransaction") {
 		call := rc.(*ssa.Call)
 		var res ssa.Value
 		for _, rf := range *call.Referrers() {
@@ -57,8 +57,8 @@ func propC06(c *Ctx, r *Report) {
 	r.rule("C06-R2/relation-row", 1, "every debited transaction leaves its relation row")
 	rb := c.fn("node.Pegnetd.recordBatch")
 	{
-		debits := findCalls(rb, "pegnet.(*Pegnet).SubFromBalance")
-		rels := findCalls(rb, "pegnet.(*Pegnet).InsertTransactionRelation")
+		debits := findCalls(rb, "pegnet.Pegnet.SubFromBalance")
+		rels := findCalls(rb, "pegnet.Pegnet.InsertTransactionRelation")
 		var bad []string
 		if len(debits) != 1 || len(rels) < 1 {
 			bad = append(bad, fmt.Sprintf("%d debit and %d relation call sites", len(debits), len(rels)))
@@ -136,8 +136,10 @@ func propC06(c *Ctx, r *Report) {
 		}
 	}
 
+	// considered exactly once: the holding window is [last rated height, executing height), shared with C07
+	ruleHoldingWindow(c, r, "C06-R7/holding-window")
 	r.rule("C06-R6/settle-once", 1, "held PEG requests are settled once")
-	for _, ci := range findCalls(hold, "node.(*Pegnetd).recordPegnetRequests") {
+	for _, ci := range findCalls(hold, "node.Pegnetd.recordPegnetRequests") {
 		if l := innermostLoop(hold, ci.Block()); l != nil {
 			settleOnce(c, r, "C06-R6/settle-once", hold, ci, l)
 		}
@@ -145,23 +147,30 @@ func propC06(c *Ctx, r *Report) {
 }
 
 func ruleReplayGuard(c *Ctx, r *Report, rule string) {
-	r.rule(rule, 4, "record/hold/execute only when the entry hash has not been executed")
+	r.rule(rule, 3, "record/hold/execute only when the entry hash has not been executed")
 	atb := c.fn("node.Pegnetd.ApplyTransactionBlock")
 	hold := c.fn("node.Pegnetd.ApplyTransactionBatchesInHolding")
 	for _, spec := range []struct {
 		f     *ssa.Function
 		calls []string
 	}{
-		{atb, []string{"pegnet.(*Pegnet).InsertTransactionHistoryTxBatch", "pegnet.(*Pegnet).InsertTransactionBatchHolding", "node.(*Pegnetd).applyTransactionBatch"}},
-		{hold, []string{"node.(*Pegnetd).applyTransactionBatch"}},
+		{atb, []string{"pegnet.Pegnet.InsertTransactionHistoryTxBatch", "pegnet.Pegnet.InsertTransactionBatchHolding", "node.Pegnetd.applyTransactionBatch"}},
+		{hold, []string{"node.Pegnetd.applyTransactionBatch"}},
 	} {
 		for _, n := range spec.calls {
-			cs := findCalls(spec.f, n)
+			cs := c.findCallsFam(spec.f, n) // the executor and helpers split off from it
 			if len(cs) == 0 {
 				r.viol(rule, fmt.Sprintf("%s -> %s", fname(spec.f), n), c.pos(spec.f.Pos()), "call not found")
 			}
 			for _, ci := range cs {
-				okk, why := replayGuarded(c, spec.f, ci)
+				why := ""
+				okk := c.liftGuard(ci, func(s ssa.CallInstruction) bool {
+					g, w := replayGuarded(c, s.Parent(), s)
+					if !g && why == "" {
+						why = w
+					}
+					return g
+				}, 0)
 				r.check(okk, rule, fmt.Sprintf("%s -> %s", fname(spec.f), shortCallee(ci.Common())), c.ipos(ci), "dominated by the not-a-replay edge", why+": an entry that already changed the ledger can be recorded or executed again")
 			}
 		}
